@@ -31,7 +31,7 @@ fn mm_operands(g: &mut G, variant: usize, rhs_must_be_value: bool) -> (Vid, Vid)
 /// knobs: 0 operand ranks (2-D / batched lhs / batched both / vector lhs / vector rhs),
 /// 1 bias shape ([n] / [1] / [] / [1,n] / full), 2 bias is a graph input.
 pub fn matmul_add(g: &mut G) -> Vid {
-    g.nk = 3;
+    g.knobs(&["ranks", "biasshape", "biasinput"]);
     let (a, b) = mm_operands(g, g.kc(0, 5), false);
     let mm = g.matmul(a, b);
     g.inters.push(mm);
@@ -72,7 +72,7 @@ fn scale_by(g: &mut G, x: Vid, div: bool, shape_variant: usize, salt: u32) -> Vi
 /// 2 scale shape ([] / [1] / [1,1] / [1;rank+1] / vector), 3 operand ranks.
 /// Free: scale values (incl. 1.0 = no effect), operand order of Mul.
 pub fn matmul_scale(g: &mut G) -> Vid {
-    g.nk = 4;
+    g.knobs(&["where", "div", "scaleshape", "ranks"]);
     let (out_s, lhs_s, rhs_s) = match g.kc(0, 6) {
         0 => (true, false, false),
         1 => (false, true, false),
@@ -90,7 +90,15 @@ pub fn matmul_scale(g: &mut G) -> Vid {
         g.inters.push(a);
     }
     if rhs_s {
-        b = scale_by(g, b, div, if lhs_s { 0 } else { sv }, 60);
+        // a rank-raising scale would turn a vector RHS into a row matrix, which is a different (invalid) MatMul
+        let sv_rhs = if lhs_s {
+            0
+        } else if g.rank(b) == 1 && (sv == 2 || sv == 3) {
+            1
+        } else {
+            sv
+        };
+        b = scale_by(g, b, div, sv_rhs, 60);
         g.inters.push(b);
     }
     let mm = g.matmul(a, b);
@@ -145,7 +153,7 @@ fn cast_chain(g: &mut G, v: Vid, variant: usize) -> Vid {
 /// 2 scale source (quant scale * constant / constant / graph input), 3 cast chain, 4 lhs rank ([m,k] / [B,m,k] / [k]).
 /// Free: weight dtype, b_zero scalar or vector, operand order of the Mul.
 pub fn matmul_integer(g: &mut G) -> Vid {
-    g.nk = 5;
+    g.knobs(&["scaleshape", "zp", "scalesrc", "casts", "lhsrank"]);
     let (m, k, b) = (g.size_nz(0), g.size_nz(1), g.size_nz(3));
     let sk = g.kc(0, 6);
     let n = if sk == 5 { 1 } else { g.size_nz(2) };
@@ -210,7 +218,7 @@ fn conv_out(i: usize, k: usize) -> usize {
 /// knobs: 0 bias shape ([1,M,1,1] / [M,1,1] / [1,1,1,1] / [1,M,H,W] / [N,M,1,1] / []), 1 Conv already has a bias,
 /// 2 bias is a graph input, 3 1-D convolution. Free: groups, kernel size, operand order of the Add.
 pub fn conv_add(g: &mut G) -> Vid {
-    g.nk = 4;
+    g.knobs(&["biasshape", "hasbias", "biasinput", "conv1d"]);
     let one_d = g.kc(3, 2) == 1;
     let n = g.size_nz(0);
     let grouped = g.free(1, 3) == 0;
@@ -251,7 +259,7 @@ pub fn conv_add(g: &mut G) -> Vid {
 /// knobs: 0 scale shape ([] / [1] / [M,1,1] / [1,1,1,1] / [1;5]), 1 zero-point inputs (both / x only / none),
 /// 2 scale source (quant scale * constant / constant / graph input), 3 cast chain.
 pub fn conv_integer(g: &mut G) -> Vid {
-    g.nk = 4;
+    g.knobs(&["scaleshape", "zp", "scalesrc", "casts"]);
     let c = 1 + g.free(1, 2);
     let m = 1 + g.free(2, 3);
     let (h, w) = (2 + g.size_nz(0), 2 + g.size_nz(1));
